@@ -22,6 +22,12 @@ def _disc(member, what):
     return "%s: %s" % (member, what)
 
 
+# members whose traced prefix is shorter than their allocated extent
+VAR_COUNT_FIELD = {"stack": "top"}
+VAR_COUNT_REASON = {"stack": "slots at and above top belong to popped frames, which are never cleared: tracing them keeps "
+                             "unreachable objects alive for as long as the stack is not overwritten that far"}
+
+
 def r5_type_table(prog, res, prop="C02"):
     stat = res.stat("%s.R5" % prop, "type-table rows vs. ASTRecordLayout of the matching union member "
                     "(traced range covers exactly the reference fields)", floor=30)
@@ -96,6 +102,18 @@ def r5_type_table(prog, res, prop="C02"):
                 viol("R5.var-length-field", row, _disc(member, "field_len_off"),
                      "row %s takes its variable slot count from offset %d which is not an unsigned word field of value.%s"
                      % (name, lo, member))
+                ok = False
+            # which counter bounds the traced slots: the one that sizes the object, except where only a
+            # prefix of the slots is live
+            want = VAR_COUNT_FIELD.get(member)
+            if want is None:
+                fs = L.field_at(member, row["size_off"]) if row.get("size_scale") else None
+                want = fs[0] if fs else None
+            if f is not None and want is not None and f[0] != want:
+                viol("R5.var-length-counter", row, _disc(member, "field_len_off"),
+                     "row %s takes its traced slot count from value.%s.%s; the live slots of this type are counted by "
+                     "value.%s.%s (%s)" % (name, member, f[0], member, want,
+                                           VAR_COUNT_REASON.get(member, "the field that also sizes the object")))
                 ok = False
             if row["field_len_scale"] != 1:
                 viol("R5.var-length-scale", row, _disc(member, "field_len_scale"),
